@@ -132,7 +132,7 @@ var feeChoices = []int64{100, 100, 101, 10000, ela, 0, 1, 99, -1, -100}
 
 // drawAmounts draws inputs and outputs. kFixed > 0 forces the output count.
 func drawAmounts(t *rapid.T, kFixed, maxIn, maxOut int) amounts {
-	mode := rapid.SampledFrom([]string{"honest", "honest", "boundary", "wrap-out", "wrap-out", "wrap-out", "wrap-in", "over", "random", "neg-balanced", "dup-outpoint", "dup-outpoint"}).Draw(t, "mode")
+	mode := rapid.SampledFrom([]string{"honest", "honest", "boundary", "wrap-out", "wrap-out", "wrap-out", "wrap-in", "over", "random", "neg-balanced", "dup-outpoint", "dup-outpoint", "no-input"}).Draw(t, "mode")
 	k := kFixed
 	if k == 0 {
 		k = rapid.IntRange(1, maxOut).Draw(t, "nout")
@@ -197,6 +197,14 @@ func drawAmounts(t *rapid.T, kFixed, maxIn, maxOut int) amounts {
 			S.Mod(S, new(big.Int).Mul(maxI64, big.NewInt(int64(k))))
 		}
 		a.Outs = splitExact(t, S, k)
+	case "no-input":
+		// no inputs at all, positive outputs: only "no cost" transaction types admit an empty
+		// input list, and those must then carry no outputs
+		a.Ins = []int64{}
+		a.Outs = make([]int64, k)
+		for i := range a.Outs {
+			a.Outs[i] = rapid.OneOf(rapid.Int64Range(1, 1000*ela), rapid.SampledFrom([]int64{1, ela, 33000000 * ela})).Draw(t, "niout")
+		}
 	case "dup-outpoint":
 		// one outpoint referenced k times with different Sequence values, outputs worth up to k coins
 		v := rapid.OneOf(rapid.Int64Range(100000, 1000*ela), rapid.SampledFrom([]int64{ela, 10 * ela, 5000 * ela})).Draw(t, "coin")
@@ -436,8 +444,9 @@ func TestCheckerLevel(t *testing.T) {
 		}
 		version := rapid.SampledFrom([]ctypes.TransactionVersion{ctypes.TxVersionDefault, ctypes.TxVersion09}).Draw(rt, "version")
 		p := n.Params
-		height := rapid.SampledFrom([]uint32{1, 3, p.PublicDPOSHeight, p.DPoSConfiguration.NFTStartHeight, p.DPoSConfiguration.NFTStartHeight + 1,
-			p.MultiExchangeVotesStartHeight + 1, 3000000}).Draw(rt, "height")
+		nft, mev := p.DPoSConfiguration.NFTStartHeight, p.MultiExchangeVotesStartHeight
+		height := rapid.SampledFrom([]uint32{1, 3, p.PublicDPOSHeight - 1, p.PublicDPOSHeight, p.PublicDPOSHeight + 1,
+			nft - 1, nft, nft + 1, nft, nft + 1, mev - 1, mev, mev + 1, p.DPoSV2StartHeight, 3000000}).Draw(rt, "height")
 		a := drawAmounts(rt, fixedOutCount(tt, rt), 6, maxOut)
 		cc := checkerCase{Type: tt.Name(), TxType: byte(tt), Version: byte(version), Height: height, A: a}
 		checkCheckerCase(rt, n, cc)
@@ -470,10 +479,20 @@ func checkCheckerCase(t vk.TB, n *node.Node, cc checkerCase) {
 	if panicked {
 		t.Fatalf("harness: checker panicked for %s: %v at %s", cc.Type, pv, frame)
 	}
-	accepted := outErr == nil && feeErr == nil
+	// real order (SanityCheck: input, output; ContextCheck: SpecialContextCheck, then the fee
+	// check unless the special check ended validation).  ActivateProducer ends it at heights
+	// <= NFTStartHeight (payload signature and producer state assumed valid), so the fee
+	// check is not reached there.
+	feeSkipped := tt == ctypes.ActivateProducer && cc.Height <= n.Params.DPoSConfiguration.NFTStartHeight
+	accepted := inErr == nil && outErr == nil && (feeErr == nil || feeSkipped)
+	if accepted && feeSkipped && O.Cmp(I) > 0 {
+		vk.Report(t, "C01:ActivateProducerTransaction.CheckTransactionOutput:outputs-accepted-where-fee-check-is-skipped",
+			fmt.Sprintf("%s at height %d (NFTStartHeight %d): %d inputs (sum %v), outputs %v pass the input and output checks and the fee check is never reached",
+				cc.Type, cc.Height, n.Params.DPoSConfiguration.NFTStartHeight, len(a.Ins), I, a.Outs), cc)
+		return
+	}
 	if len(a.DupSeq) > 0 {
 		// the input check is what has to refuse a repeated outpoint
-		accepted = accepted && inErr == nil
 		if accepted && O.Cmp(I) > 0 {
 			vk.Report(t, fmt.Sprintf("C01:%s.CheckTransactionInput:repeated-outpoint-accepted", inputChecker(tt)),
 				fmt.Sprintf("%s at height %d: %d inputs on one outpoint worth %v (sequences %v) pass CheckTransactionInput/Output/Fee with outputs summing to %v",
@@ -509,7 +528,7 @@ func checkCheckerCase(t vk.TB, n *node.Node, cc checkerCase) {
 			vk.Report(t, sig, fmt.Sprintf("%s: inputs %v (sum %v) outputs %v (sum %v) accepted, fee recorded %d", cc.Type, a.Ins, I, a.Outs, O, int64(tx.Fee())), cc)
 			return
 		}
-		if big.NewInt(int64(tx.Fee())).Cmp(exactFee) != 0 {
+		if !feeSkipped && big.NewInt(int64(tx.Fee())).Cmp(exactFee) != 0 {
 			vk.Report(t, "C01:transaction.getTransactionFee:fee-not-exact",
 				fmt.Sprintf("%s: recorded fee %d, exact %v", cc.Type, int64(tx.Fee()), exactFee), cc)
 			return
